@@ -25,7 +25,7 @@ T_REV = 1.0
 RULE = (
     "conservative systems (7: point-mass pendulum/FixedDistance, elastic pendulum (force-form spring, no constraint), torque-free rigid body, "
     "rigid-body pendulum/Revolute, chain of 3 point masses, double pendulum/Spherical+Revolute, closed slider-crank loop with force-form spring) "
-    "x 2 generic consistent initial velocities (moderate, fast; the seed rotates the letters) x parts {order: dt=.01,.005,.0025 over T=2; "
+    "x 2 generic consistent initial velocities (moderate, fast; the seed rotates the letters; plus release from rest for the two rigid-body pendulums) x parts {order: dt=.01,.005,.0025 over T=2; "
     "drift: T=8 at dt=.02 (quick) / T=40 at all three dt (thorough); reverse: 1 s forward + 1 s back at each dt}; one case = one part; "
     "every stored row is an evaluated state; a part is non-trivial if its runs completed and the energy error is measurable (order/drift) "
     "or the state moved (reverse)"
@@ -62,6 +62,12 @@ def cases(tier, seed):
                 out.append(dict(base, part="drift", dt=dt, T=T_LONG[tier]))
             for dt in DTS:
                 out.append(dict(base, part="reverse", dt=dt, T=T_REV))
+    # released from REST (level 0): velocity-dependent force terms vanish, together with their Jacobian, in the initial state only
+    # (a classification of the forces made once at t0 would be wrong; seeded C19-h)
+    for scen in ("double_pend", "rb_pend"):
+        base = {"scen": scen, "level": 0, "seed": seed}
+        out.append(dict(base, part="order", T=T_ORD))
+        out.append(dict(base, part="reverse", dt=DTS[1], T=T_REV))
     # the same experiments with the full Newton iteration (reuse_lu_decomposition=False) instead of the default chord iteration
     for scen in SYSTEMS[:3]:
         base = {"scen": scen, "level": 1, "seed": seed, "full_newton": True}
